@@ -30,7 +30,7 @@ def cmd_prove(a):
     for r in res:
         obs = r["obligations"]
         n_ok = sum(1 for o in obs if o["status"] == "proved")
-        print(f"== {r.get('ident', r['target'])}: {n_ok}/{len(obs)} proved, paths={r.get('n_paths')} wall={r.get('wall_s', 0):.2f}s vac={r.get('vacuity_requires')}")
+        print(f"== {r.get('ident', r['target'])}: {n_ok}/{len(obs)} proved, paths={r.get('n_paths')} wall={r.get('wall_s', 0):.2f}s vac={r.get('vacuity_requires')} paths-vac={r.get('vacuity_paths')} ({r.get('vacuity_wall_s')}s)")
         if r.get("unsupported"):
             print("   UNSUPPORTED:", r["unsupported"]); bad += 1
         if r.get("error"):
